@@ -26,7 +26,7 @@ func observeDefrag(v any, depth int) (string, any) {
 	if v == nil {
 		return "ONil", nil
 	}
-	if depth > 40 {
+	if depth > 400 {
 		return "OOther", "too-deep"
 	}
 	switch tv := v.(type) {
@@ -219,6 +219,9 @@ func (st *dfStats) walk(n *Node, d int) {
 
 // nativeCondOf: the native Condition behind a value however it is typed
 func nativeCondOf(v any) (stk.Condition, bool) {
+	if b, d := unchain(v); d >= 2 {
+		v = b
+	}
 	switch x := v.(type) {
 	case stk.Condition:
 		return x, x.IsInit()
@@ -638,6 +641,14 @@ func genDefrag(ctx *Ctx, emit func(any, string)) {
 		emit(mk(nil, root), "witness")
 		root2 := &Node{T: "stack", Kind: "BASIC", Els: []*Node{dfCondOf(ints(0, 0, 0, 0, 0, 9), ""), ints(1)}}
 		emit(mk(nil, root2), "witness")
+	}
+	// -- depth is no limit: a fragmented Stack at the bottom of chains of 49..80 nested Stacks
+	for _, depth := range []int{49, 50, 51, 52, 60, 80} {
+		n := ints(1, 0, 0, 2, 0, 0, 0, 3)
+		for d := 0; d < depth; d++ {
+			n = &Node{T: "stack", Kind: dfKinds[d%len(dfKinds)], Els: []*Node{dfLeaf(4 + d%5), n}}
+		}
+		emit(mk(nil, n), "witness")
 	}
 	// -- exhaustive: every pattern up to the tier's length x limits x index options
 	maxLen := 9
